@@ -7,7 +7,12 @@
 (*   DStart  - dispatch reads the shutdown flag                            *)
 (*   DSend   - hash + try_send                                             *)
 (*   DCount  - counters updated, DispatchResult returned                   *)
-(*   WRecv / WFill / WFillDone / WProc - worker loop                       *)
+(*   WHead / WRecv / WTimeout / WTmo / WFill / WFillDone / WProc - worker  *)
+(*             loop: WHead is the loop head (leave when shutdown is set    *)
+(*             and the queue is empty), WRecv / WTimeout the two outcomes  *)
+(*             of recv_timeout, WTmo the flag test after a timeout         *)
+(*   WGone   - the worker function returns (receiver dropped)              *)
+(*   Shutdown - the flag is set (shutdown())                               *)
 (* Analysis is abstract but stateful: a packet is analysed correctly iff   *)
 (* the same worker has already analysed all earlier packets of its         *)
 (* connection (per-worker private tables).                                 *)
@@ -21,19 +26,20 @@ CONSTANTS NW,        \* number of workers
           ConnOf(_), \* connection (undirected) of a packet
           Route(_),  \* worker index 1..NW chosen for a packet
           Crate,     \* "tcp" | "http" | "tls" (counter conventions)
-          AllowShutdown
+          AllowShutdown,
+          Devs       \* named deviations of the code from the intended design (empty: the code as it stands)
 
 Disp == DOMAIN Traces
 Packets == UNION {{Traces[d][i] : i \in 1..Len(Traces[d])} : d \in Disp}
 
-VARIABLES q, shutdown, dpc, dnext, dres, outcome, cDispatched, cDropped, wDropped, wpc, batch, analysed, log
-vars == <<q, shutdown, dpc, dnext, dres, outcome, cDispatched, cDropped, wDropped, wpc, batch, analysed, log>>
+VARIABLES q, shutdown, dpc, dnext, dres, outcome, cDispatched, cDropped, wDropped, wpc, batch, analysed, log, owed
+vars == <<q, shutdown, dpc, dnext, dres, outcome, cDispatched, cDropped, wDropped, wpc, batch, analysed, log, owed>>
 
 Init == /\ q = [w \in 1..NW |-> <<>>] /\ shutdown = FALSE
         /\ dpc = [d \in Disp |-> "idle"] /\ dnext = [d \in Disp |-> 1] /\ dres = [d \in Disp |-> "ok"]
         /\ outcome = [p \in Packets |-> "none"] /\ cDispatched = 0 /\ cDropped = 0 /\ wDropped = [w \in 1..NW |-> 0]
-        /\ wpc = [w \in 1..NW |-> "recv"] /\ batch = [w \in 1..NW |-> <<>>]
-        /\ analysed = [p \in Packets |-> 0] /\ log = [w \in 1..NW |-> <<>>]
+        /\ wpc = [w \in 1..NW |-> "head"] /\ batch = [w \in 1..NW |-> <<>>]
+        /\ analysed = [p \in Packets |-> 0] /\ log = [w \in 1..NW |-> <<>>] /\ owed = {}
 
 Cur(d) == Traces[d][dnext[d]]
 
@@ -45,17 +51,17 @@ DStart(d) ==
           /\ dnext' = [dnext EXCEPT ![d] = @ + 1]
           /\ UNCHANGED <<dpc>>
      ELSE dpc' = [dpc EXCEPT ![d] = "send"] /\ UNCHANGED <<outcome, cDropped, dnext>>
-  /\ UNCHANGED <<q, shutdown, dres, cDispatched, wDropped, wpc, batch, analysed, log>>
+  /\ UNCHANGED <<q, shutdown, dres, cDispatched, wDropped, wpc, batch, analysed, log, owed>>
 
 DSend(d) ==
   /\ dpc[d] = "send"
   /\ LET w == Route(Cur(d)) IN
-       IF Len(q[w]) < Cap
+       IF Len(q[w]) < Cap /\ wpc[w] # "gone"          \* try_send fails when the queue is full or its worker is gone (receiver dropped)
        THEN q' = [q EXCEPT ![w] = Append(@, Cur(d))] /\ dres' = [dres EXCEPT ![d] = "ok"]
        ELSE UNCHANGED q /\ dres' = [dres EXCEPT ![d] = "full"]
   /\ cDispatched' = IF Crate \in {"http", "tls"} THEN cDispatched + 1 ELSE cDispatched   \* http/tls count attempts
   /\ dpc' = [dpc EXCEPT ![d] = "count"]
-  /\ UNCHANGED <<shutdown, dnext, outcome, cDropped, wDropped, wpc, batch, analysed, log>>
+  /\ UNCHANGED <<shutdown, dnext, outcome, cDropped, wDropped, wpc, batch, analysed, log, owed>>
 
 DCount(d) ==
   /\ dpc[d] = "count"
@@ -67,33 +73,62 @@ DCount(d) ==
           /\ cDropped' = cDropped + 1 /\ wDropped' = [wDropped EXCEPT ![Route(Cur(d))] = @ + 1]
           /\ UNCHANGED cDispatched
   /\ dpc' = [dpc EXCEPT ![d] = "idle"] /\ dnext' = [dnext EXCEPT ![d] = @ + 1]
-  /\ UNCHANGED <<q, shutdown, dres, wpc, batch, analysed, log>>
+  /\ UNCHANGED <<q, shutdown, dres, wpc, batch, analysed, log, owed>>
 
+\* loop head: a worker leaves once shutdown is set and its queue is empty (packets already queued are finished first)
+WHead(w) ==
+  /\ wpc[w] = "head"
+  /\ wpc' = [wpc EXCEPT ![w] = IF shutdown /\ q[w] = <<>> THEN "exit" ELSE "wait"]
+  /\ UNCHANGED <<q, shutdown, dpc, dnext, dres, outcome, cDispatched, cDropped, wDropped, batch, analysed, log, owed>>
+\* recv_timeout returns a packet
 WRecv(w) ==
-  /\ wpc[w] = "recv" /\ q[w] # <<>> /\ ~shutdown
+  /\ wpc[w] = "wait" /\ q[w] # <<>>
   /\ batch' = [batch EXCEPT ![w] = <<Head(q[w])>>] /\ q' = [q EXCEPT ![w] = Tail(@)]
   /\ wpc' = [wpc EXCEPT ![w] = "fill"]
-  /\ UNCHANGED <<shutdown, dpc, dnext, dres, outcome, cDispatched, cDropped, wDropped, analysed, log>>
+  /\ UNCHANGED <<shutdown, dpc, dnext, dres, outcome, cDispatched, cDropped, wDropped, analysed, log, owed>>
+\* recv_timeout returns Timeout: the queue was empty when the timer fired
+WTimeout(w) ==
+  /\ wpc[w] = "wait" /\ q[w] = <<>>
+  /\ wpc' = [wpc EXCEPT ![w] = "tmo"]
+  /\ UNCHANGED <<q, shutdown, dpc, dnext, dres, outcome, cDispatched, cDropped, wDropped, batch, analysed, log, owed>>
+\* after a timeout the flag is read again.  Intended: go back to the loop head (which looks at the queue once more).
+\* DX3_timeout_exit: the code before the repair left at once when the flag was set, without looking at the queue again.
+WTmo(w) ==
+  /\ wpc[w] = "tmo"
+  /\ wpc' = [wpc EXCEPT ![w] = IF shutdown /\ "DX3_timeout_exit" \in Devs THEN "exit" ELSE "head"]
+  /\ UNCHANGED <<q, shutdown, dpc, dnext, dres, outcome, cDispatched, cDropped, wDropped, batch, analysed, log, owed>>
+\* the worker function returns: its receiver is dropped, what is still in the queue is discarded, later sends fail
+WGone(w) ==
+  /\ wpc[w] = "exit"
+  /\ wpc' = [wpc EXCEPT ![w] = "gone"] /\ q' = [q EXCEPT ![w] = <<>>]
+  /\ UNCHANGED <<shutdown, dpc, dnext, dres, outcome, cDispatched, cDropped, wDropped, batch, analysed, log, owed>>
 WFill(w) ==
   /\ wpc[w] = "fill" /\ Len(batch[w]) < Batch /\ q[w] # <<>>
   /\ batch' = [batch EXCEPT ![w] = Append(@, Head(q[w]))] /\ q' = [q EXCEPT ![w] = Tail(@)]
-  /\ UNCHANGED <<shutdown, dpc, dnext, dres, outcome, cDispatched, cDropped, wDropped, wpc, analysed, log>>
+  /\ UNCHANGED <<shutdown, dpc, dnext, dres, outcome, cDispatched, cDropped, wDropped, wpc, analysed, log, owed>>
 WFillDone(w) ==
   /\ wpc[w] = "fill" /\ (Len(batch[w]) >= Batch \/ q[w] = <<>>)
   /\ wpc' = [wpc EXCEPT ![w] = "proc"]
-  /\ UNCHANGED <<q, shutdown, dpc, dnext, dres, outcome, cDispatched, cDropped, wDropped, batch, analysed, log>>
+  /\ UNCHANGED <<q, shutdown, dpc, dnext, dres, outcome, cDispatched, cDropped, wDropped, batch, analysed, log, owed>>
 WProc(w) ==
   /\ wpc[w] = "proc" /\ batch[w] # <<>>
   /\ analysed' = [analysed EXCEPT ![Head(batch[w])] = @ + 1]
   /\ log' = [log EXCEPT ![w] = Append(@, Head(batch[w]))]
   /\ batch' = [batch EXCEPT ![w] = Tail(@)]
-  /\ wpc' = [wpc EXCEPT ![w] = IF Len(batch[w]) = 1 THEN "recv" ELSE "proc"]
-  /\ UNCHANGED <<q, shutdown, dpc, dnext, dres, outcome, cDispatched, cDropped, wDropped>>
+  /\ wpc' = [wpc EXCEPT ![w] = IF Len(batch[w]) = 1 THEN "head" ELSE "proc"]
+  /\ UNCHANGED <<q, shutdown, dpc, dnext, dres, outcome, cDispatched, cDropped, wDropped, owed>>
+\* shutdown(): the flag is set.  `owed` remembers what the pool owes its caller at that moment: every packet that is already
+\* in a queue or was already reported queued (a dispatch call that has only read the flag so far is concurrent with shutdown
+\* and owes nothing).
 Shutdown == AllowShutdown /\ ~shutdown /\ shutdown' = TRUE
+            /\ owed' = {p \in Packets : outcome[p] = "queued"} \cup {Cur(d) : d \in {e \in Disp : dpc[e] = "count" /\ dres[e] = "ok"}}
             /\ UNCHANGED <<q, dpc, dnext, dres, outcome, cDispatched, cDropped, wDropped, wpc, batch, analysed, log>>
 
-Next == (\E d \in Disp : DStart(d) \/ DSend(d) \/ DCount(d)) \/ (\E w \in 1..NW : WRecv(w) \/ WFill(w) \/ WFillDone(w) \/ WProc(w)) \/ Shutdown
-Spec == Init /\ [][Next]_vars /\ WF_vars(Next)
+Next == (\E d \in Disp : DStart(d) \/ DSend(d) \/ DCount(d)) \/ (\E w \in 1..NW : WHead(w) \/ WRecv(w) \/ WTimeout(w) \/ WTmo(w) \/ WGone(w) \/ WFill(w) \/ WFillDone(w) \/ WProc(w)) \/ Shutdown
+DNext(d) == DStart(d) \/ DSend(d) \/ DCount(d)
+WNext(w) == WHead(w) \/ WRecv(w) \/ WTimeout(w) \/ WTmo(w) \/ WGone(w) \/ WFill(w) \/ WFillDone(w) \/ WProc(w)
+\* every thread keeps running (an idle worker spins through head / wait / timeout, so fairness is per thread)
+Spec == Init /\ [][Next]_vars /\ (\A d \in Disp : WF_vars(DNext(d))) /\ (\A w \in 1..NW : WF_vars(WNext(w)))
 
 \* ---- properties
 Quiescent == /\ \A d \in Disp : dpc[d] = "idle" /\ dnext[d] > Len(Traces[d])
@@ -117,5 +152,18 @@ WorkerOf(p) == CHOOSE w \in 1..NW : \E i \in 1..Len(log[w]) : log[w][i] = p
 IdxIn(w, p) == CHOOSE i \in 1..Len(log[w]) : log[w][i] = p
 Correct(p) == analysed[p] = 1 /\ \A r \in Earlier(p) : analysed[r] = 1 /\ WorkerOf(r) = WorkerOf(p) /\ IdxIn(WorkerOf(r), r) < IdxIn(WorkerOf(p), p)
 SequentialEquivalence == (Quiescent /\ ~shutdown /\ NDropped = 0) => \A p \in Packets : Correct(p)
-Termination == <>(Quiescent)
+\* every run settles: all dispatch calls have returned and either everything queued is analysed or (after shutdown) the workers are gone
+Termination == <>((\A d \in Disp : dpc[d] = "idle" /\ dnext[d] > Len(Traces[d])) /\ ((~shutdown /\ Quiescent) \/ (\A w \in 1..NW : wpc[w] = "gone")))
+\* ---- life cycle (shutdown)
+AllExited == \A w \in 1..NW : wpc[w] = "gone"
+DispatchersDone == \A d \in Disp : dpc[d] = "idle" /\ dnext[d] > Len(Traces[d])
+\* what was queued when shutdown() was called is analysed before the workers are gone
+ShutdownDrains == (shutdown /\ AllExited) => \A p \in owed : analysed[p] = 1
+\* a worker leaves only after shutdown
+ExitOnlyAfterShutdown == \A w \in 1..NW : wpc[w] \in {"exit", "gone"} => shutdown
+\* after shutdown every worker leaves (needs fairness of the worker steps)
+WorkersLeave == shutdown ~> AllExited
+\* NOT a property of the design: a dispatch call that read the flag before shutdown() may enqueue after its worker has left;
+\* it is then reported queued and never analysed (model checked to be reachable: MC_Pool scenario x03_late)
+NoLateQueued == (shutdown /\ AllExited /\ DispatchersDone) => \A p \in Packets : outcome[p] = "queued" => analysed[p] = 1
 =============================================================================
